@@ -1,6 +1,10 @@
 """C20 - a Quantity is numerically transparent."""
 import itertools
 import operator
+import sys
+
+if hasattr(sys, 'set_int_max_str_digits'):
+    sys.set_int_max_str_digits(0)      # outcomes are compared by repr(); huge ints are legitimate results
 
 from ..core import Acc, Violation, run_hypothesis, shard_seed
 
@@ -65,6 +69,8 @@ def outcome(fn, *args):
         r = fn(*args)
     except Exception as e:  # noqa - the exception type is the outcome
         return ('raises', type(e).__name__)
+    if isinstance(r, int) and not isinstance(r, bool) and r.bit_length() > 4096:
+        return ('ok', 'int', 'bits=%d hash=%d' % (r.bit_length(), hash(r)))
     return ('ok', type(r).__name__, repr(r))
 
 
